@@ -6,6 +6,16 @@ PENDING = "check not built yet in this round (specification and driver in progre
 
 # id -> (level text, level note, technique, design ref)
 BUILT = {
+ "C06": ("ScoreSelect.tla: candidates = sorted unobserved plates minus batch; np.array_split chunk arithmetic incl. empty chunks; "
+         "conditioning rows (own + batch plates, one per condition class); holders concatenated in any chunk order; selection = any "
+         "allowed plate with no strictly lower allowed plate, nothing iff nothing allowed. TLC enumerates every observed set, batch, "
+         "chunk count, score assignment (3 levels incl. -inf, ties), chunk order and allowed set on two fixtures; explored rounds "
+         "are replayed with a recording Scorer, real ChunkedScoresHolder save/load/concat and select_next_plate (no policy / stub "
+         "policy); random rounds incl. more chunks than plates and the select_next_plate CLI are validated by TraceScoreSelect.",
+         "the conditioning filter may keep any representative; argmin ties may resolve to any minimal plate; calculate_scores CLI "
+         "is exercised under C18.",
+         "TLA+ transcription + TLC exhaustive; spec->code replay; code->spec trace validation",
+         "5/C06"),
  "C14": ("Views.tla: a pool of view objects over parent screens; every operation (subset of a subset, combine, concat, invert, "
          "observed/unobserved split, get_plate, unique-condition filter, to_screen) creates a new object and NoAliasing requires "
          "every existing object unchanged; TLC explores all compositions up to 4/5 objects on fixtures with duplicate, swapped "
